@@ -494,6 +494,37 @@ def compare(chk, v, tname, W, R, where, vn):
             pb = flush()
             return pb if pb else out
         assignments = [{d: 2 + (k_ % 2) for k_, d in enumerate(dims)}, {d: 3 - (k_ % 2) for k_, d in enumerate(dims)}, {d: 1 for d in dims}]
+        # an object's own copy of a dimension (`TLweSample::k`, set by its constructor from the parameter object it is created with)
+        # has the value of that dimension: tied to the one dimension of that name the comparison knows
+        ties = {}
+        alias_ = _bounds.dim_field_alias(v)
+        for d in dims:
+            if d[0] != "fld":
+                continue
+            try:
+                rec_ = ioseq._record_in_type(v, ioseq.type_of(v, d[1], roots_))
+            except Exception:
+                rec_ = None
+            tgt = alias_.get((rec_, d[2]))
+            if not tgt:
+                continue
+            cands = []
+            for e_ in dims:
+                if e_ is d:
+                    continue
+                if e_[0] == "prop" and len(e_) > 2 and e_[2] == tgt[1]:
+                    cands.append(e_)
+                elif e_[0] == "fld" and e_[2] == tgt[1]:
+                    try:
+                        if ioseq._record_in_type(v, ioseq.type_of(v, e_[1], roots_)) == tgt[0]:
+                            cands.append(e_)
+                    except Exception:
+                        pass
+            if len(cands) == 1:
+                ties[d] = cands[0]
+        for asg_ in assignments:
+            for d, c_ in ties.items():
+                asg_[d] = asg_[c_]
         checked = 0
         for asg in assignments:
             try:
@@ -911,6 +942,115 @@ def check_mirror(chk, v, rule, only_size=False):
             chk.proved(rule, key, where=where, detail="%d ops compared" % sum(1 for _ in flat_ops(W["ops"])), variant=vn)
 
 
+def check_reader_variances(chk, v, tname, R, where, rule="R7"):
+    """Every ciphertext row (an LWE / TLWE sample inside the object) whose coefficients the reader fills also gets its advisory
+    variance: read from the stream into that row, or assigned from the value stored once before the rows.  The rows filled and the
+    rows given a variance are enumerated over the reader's loop nests (any order, direction or pointer walk) for the dimensions in
+    1..2; a row left with the constructor's variance is a field of the re-imported object that differs from the original."""
+    import itertools
+    from sa import concrete
+    from sa.symexec import flat
+    from sa import summ as _summ
+    filled, varied = [], []
+
+    def row_of(t):
+        """(static path signature, [subscript terms], row lvalue) of the sample a pointer / lvalue points into, or None"""
+        while t and t[0] in ("addr", "cast"):
+            t = t[1] if t[0] == "addr" else t[2]
+        x = t
+        row = None
+        while isinstance(x, tuple) and x and x[0] in ("idx", "fld"):
+            if x[0] == "fld" and x[2] in ("a", "b", "current_variance"):
+                row = x[1]
+            x = x[1]
+        if row is None:
+            return None
+        subs, sig = [], []
+        y = row
+        while isinstance(y, tuple) and y and y[0] in ("idx", "fld"):
+            if y[0] == "idx":
+                subs.append(y[2])
+                sig.append("[]")
+            else:
+                sig.append("." + y[2])
+            y = y[1]
+        return "".join(reversed(sig)), list(reversed(subs)), row
+    for x, loops, guards, stack, pre in _summ.walk_all(R["eff"]):
+        if x["e"] == "call" and x["name"].endswith("::fread") and len(x.get("args") or []) == 2 and isinstance(x["args"][0], tuple):
+            r_ = row_of(x["args"][0])
+            if r_ is not None:
+                tgt = x["args"][0]
+                is_var = any(st_[0] == "fld" and st_[2] == "current_variance" for st_ in sym.subterms(tgt))
+                (varied if is_var else filled).append({"loops": loops, "guards": guards, "row": r_, "line": x["l"]})
+        elif x["e"] == "store" and x["lv"][0] == "fld" and x["lv"][2] == "current_variance" and not x.get("ctor_init") and not stack_is_ctor(stack):
+            r_ = row_of(x["lv"])
+            if r_ is not None:
+                varied.append({"loops": loops, "guards": guards, "row": r_, "line": x["l"]})
+    if not filled:
+        return
+    key = "%s: every row the reader fills also receives its variance" % tname
+
+    def leaves(t):
+        """maximal non-arithmetic sub-terms: the quantities a bound or condition depends on"""
+        if not isinstance(t, tuple) or not t or t[0] in ("int", "float", "str", "unk"):
+            return
+        if t[0] == "poly":
+            for m_, _c in t[1]:
+                for a_ in m_:
+                    yield from leaves(a_)
+        elif t[0] in ("op", "un", "cast", "cond"):
+            for x_ in t[1:]:
+                if isinstance(x_, tuple):
+                    yield from leaves(x_)
+        elif t[0] == "call" and t[1] == "$loop_end":
+            for y_ in t[2][:3]:
+                yield from leaves(y_)
+        else:
+            yield t
+    dims = []
+    for p_ in filled + varied:
+        for l_ in p_["loops"]:
+            if "var" not in l_:
+                chk.broken("%s: a loop of the reader at line %s has no closed form" % (tname, l_.get("l")))
+            for t_ in (l_["lo"], l_["hi"]):
+                for a_ in leaves(sym.trip_counts_nonneg(t_)):
+                    if a_ not in dims and a_[0] in ("fld", "sym", "prop") and not any(a_ == l2.get("var") for q_ in filled + varied for l2 in q_["loops"]):
+                        dims.append(a_)
+    if len(dims) > 7:
+        chk.broken("%s: %d dimensions in the reader's loops" % (tname, len(dims)))
+    wit = None
+    try:
+        for vals in itertools.product((1, 2), repeat=len(dims)):
+            env = dict(zip(dims, vals))
+            def rows(lst):
+                out = set()
+                for p_ in lst:
+                    sig, subs, _row = p_["row"]
+                    # (conditions on what was read -- tag tests that abort otherwise -- are taken; conditions on dimensions are evaluated)
+                    lvs = {l_["var"] for l_ in p_["loops"]}
+                    p2 = dict(p_, guards=[g_ for g_ in p_["guards"] if all(a_ in dims or a_ in lvs for a_ in leaves(g_))])
+                    for tup in concrete.visited_tuples([p2], lambda q_: subs, env):
+                        out.add((sig, tup))
+                return out
+            miss = rows(filled) - rows(varied)
+            if miss:
+                sig, tup = sorted(miss)[0]
+                wit = "with %s: the row %s%s is filled (line %s) but its current_variance is never assigned: it keeps the constructor's value" % (
+                    ", ".join("%s = %d" % (("the '%s' read from the stream" % d_[2]) if d_[0] == "prop" else sym.show(d_)[-30:], env[d_]) for d_ in dims) or "any dimensions",
+                    sig, list(tup), filled[0]["line"])
+                break
+    except concrete.NotEvaluable as e:
+        chk.broken("%s: reader rows not enumerable: %s" % (tname, e))
+    chk.require(wit is None, rule, key, where=where, ok="%d fill site(s), %d variance site(s), enumerated for the dimensions in 1..2" % (len(filled), len(varied)),
+                bad=wit or "", variant=v.name)
+    chk.vcount(v.name, "%s.readers_with_rows" % rule)
+
+
+def stack_is_ctor(stack):
+    """inside an inlined constructor / init_ function (the object's default variance, not the reader's assignment)"""
+    return any(("::" in n_ and n_.split("::")[-1] == n_.split("::")[-2]) or n_.startswith(("init_", "new_")) for n_ in stack)
+
+
 def run(chk):
     prog = Program()
     chk.explanation = (
@@ -946,6 +1086,8 @@ def run(chk):
                 chk.proved("R1", key, where=where, detail="%d ops compared (%d with symbolic content): %s" % (
                     nops, nt, "; ".join(show_op(o) for o in W["ops"])[:300]), variant=vn)
             chk.count("R1.ops_compared", nops)
+            if transport == "File":
+                check_reader_variances(chk, v, tname, R, pr["r"].where)
             canon[(tname, transport)] = erase_streams(ioseq.normalize_serials(
                 ([ioseq.canon_op(o, {}) for o in W["ops"]],
                  [ioseq.canon_op(o, object_paths(R["eff"], R["result"])) for o in R["ops"]])))
